@@ -13,7 +13,9 @@ ASSUMPTIONS = ["the query does not contain the element name used for marking ('l
 TRUSTED = ["lean/Luqum/Model/Naming.lean markTree (hand-written)"]
 
 ELEMENT = "lqv"
-TAG = re.compile(r'<lqv class="(ok|ko)">|</lqv>')
+ELEMENTS = ("lqv", "lqw")      # several markers live in one process, with the same class names and other elements
+TAGS = {e: re.compile(r'<%s class="(ok|ko)">|</%s>' % (e, e)) for e in ELEMENTS}
+TAG = TAGS[ELEMENT]
 
 
 def spans(d, start, out, path=()):
@@ -66,14 +68,14 @@ def num_text(nj):
     return ("-" if nj["neg"] else "") + s
 
 
-def parse_markup(s):
+def parse_markup(s, element=ELEMENT):
     """-> (text without tags, class per character, well nested?)"""
     text = []
     classes = []
     stack = []
     pos = 0
     ok = True
-    for m in TAG.finditer(s):
+    for m in TAGS[element].finditer(s):
         chunk = s[pos:m.start()]
         text.append(chunk)
         classes.extend([stack[-1] if stack else None] * len(chunk))
@@ -93,7 +95,7 @@ def parse_markup(s):
     return "".join(text), classes, ok
 
 
-def oracle(ctx, q, d, ok_paths, ko_paths, outs, info):
+def oracle(ctx, q, d, ok_paths, ko_paths, outs, info, element=ELEMENT):
     sp = {}
     total = spans(d, 0, sp)
     marked = {p: "ok" for p in ok_paths}
@@ -106,7 +108,7 @@ def oracle(ctx, q, d, ok_paths, ko_paths, outs, info):
             expected[i] = marked[p]
     plain_text = None
     for parci, out in outs.items():
-        text, classes, nested = parse_markup(out)
+        text, classes, nested = parse_markup(out, element)
         o = common.load_tree(d)
         if text != o.__str__(head_tail=True):
             ctx.fail("removing the inserted elements does not give back the text of the tree", dict(info, out=out))
@@ -130,7 +132,7 @@ def run(ctx):
     I = common.impl()
     rng = ctx.rng
     reqs, exp = [], []
-    marker = I.naming.HTMLMarker(element=ELEMENT)
+    markers = {e: I.naming.HTMLMarker(element=e) for e in ELEMENTS}
     earlier = []
     for i in range(ctx.budget(300, 6000)):
         if rng.random() < 0.8:
@@ -139,8 +141,13 @@ def run(ctx):
                 continue
         else:
             q, d = None, common.normalize(gen.TreeGen(rng, layout="partial", none_items=0.0).any())
-        if ELEMENT in (q or ""):
+        if any(e in (q or "") for e in ELEMENTS):
             continue
+        # (seeded C17-G: the opening tag memoised per class name on the CLASS, so a marker with another element
+        # reuses the tag of whichever marker used that class name first)
+        element = rng.choice(ELEMENTS)
+        marker = markers[element] if rng.random() < 0.8 else I.naming.HTMLMarker(element=element)
+        ctx.count("marker element:" + element)
         paths = [p for p, _ in common.tree_nodes(d)]
         k = rng.choice([0, 1, 2, 3, len(paths) // 2, len(paths)])
         chosen = rng.sample(paths, min(k, len(paths)))
@@ -160,7 +167,7 @@ def run(ctx):
                 ctx.fail("HTMLMarker raised %s: %s" % (type(e).__name__, e), info)
                 break
             reqs.append({"op": "mark", "tree": d, "ok": info["ok"], "ko": info["ko"], "parcimonious": parci,
-                         "element": ELEMENT})
+                         "element": element})
             exp.append({"str": outs[parci]})
         if len(outs) < 2:
             continue
@@ -170,14 +177,15 @@ def run(ctx):
         ctx.count("marked nodes", len(chosen))
         # the property is about parsed queries; for q the printed form may differ by KF1/KF2
         printed = o.__str__(head_tail=True)
-        oracle(ctx, q, d, ok_paths, ko_paths, outs, dict(info, q=q, printed=printed))
+        oracle(ctx, q, d, ok_paths, ko_paths, outs, dict(info, q=q, printed=printed, element=element), element)
         if not trees.unchanged(o, snap):
             ctx.fail("the input tree was modified", info)
         # ---- re-entrant use of the one long-lived marker: while it marks this tree (at the first membership test on
         # the path set) the same marker marks another tree with other sets; both answers must be those of calls
         # that do not overlap (seeded C17-F: the sets and the mode kept on the marker instead of in the context)
-        if earlier and rng.random() < 0.25:
-            eo, eok, eko, eparci, eout = rng.choice(earlier)
+        same = [e for e in earlier if e[5] == element]
+        if same and rng.random() < 0.25:
+            eo, eok, eko, eparci, eout, _ = rng.choice(same)
             parci = rng.random() < 0.5
             state = {"inner": None, "done": False}
 
@@ -201,7 +209,7 @@ def run(ctx):
                          "made alone", dict(info, out=state["inner"], expected=eout))
         if len(earlier) < 40:
             par = rng.random() < 0.5
-            earlier.append((o, set(ok_paths), set(ko_paths), par, outs[par]))
+            earlier.append((o, set(ok_paths), set(ko_paths), par, outs[par], element))
     if ctx.model_ok:
         for r, a, e in zip(reqs, common.ask_model(reqs), exp):
             if a != e:
